@@ -145,6 +145,16 @@ def validate_gp_type(gp_type, n_samples, n_landmarks):
             logger.warning(message)
             raise ValueError(message)
 
+    # FIXED keeps the requested inducing points, so there must be some
+    elif gp_type == GaussianProcessType.FIXED and n_landmarks == 0:
+        message = (
+            f"Gaussian Process type {gp_type} but n_landmarks=0. Set n_landmarks "
+            "to the number of inducing points to use or omit gp_type to use "
+            "a non-sparse Gaussian Process."
+        )
+        logger.error(message)
+        raise ValueError(message)
+
 
 def validate_params(rank, gp_type, n_samples, n_landmarks, landmarks):
     """
